@@ -47,7 +47,7 @@ def main():
         shutil.copy(demo_src, dst)
         # normalise the command: run inside the scratch worktree
         cmd = re.sub(r"cd\s+\S+\s*&&\s*", "", demo_cmd)
-        cmd = re.sub(r"/tmp/mut_c\d\d", wt, cmd)
+        cmd = re.sub(r"/tmp/mut\d*_c\d\d", wt, cmd)
         rc0, out0 = sh(cmd, wt)
         res["demo_without_patch"] = "pass" if rc0 == 0 else "FAIL"
         rc, out = sh("git apply %s" % os.path.join(d, "patch.diff"), wt)
